@@ -221,6 +221,11 @@ def source_facts(path):
     return out
 
 
+# literal precisions of the PINNED tree (half a unit in the last written digit, relative): frozen here so that a coarser literal in a
+# changed source cannot widen its own tolerance
+PINNED_LIT_REL = {'standard_conditions_temperature': '1/54630', 'standard_laboratory_temperature': '1/596', 'electron_rest_mass': '1/182187674030', 'bohr_radius': '1/1058', 'hydrogen_ionization_energy': '1/272', 'solar_mass': '1/39768', 'earth_mass': '1/119444', 'richardson_constant': '1/24034', 'rydberg_frequency': '1/65796839205000', 'wien_displacement_constant': '1/9930228', 'hubble_constant': '1/14', 'zero_point_luminosity': '1/60256', 'sun_luminosity': '1/7654', 'vacuum_impedance': '1/753460626824'}
+
+
 def literal_rel_half_ulp(text: str) -> Fr:
     """half a unit in the last written digit of a decimal literal, relative to the literal"""
     d = Decimal(text.replace("_", ""))
@@ -353,7 +358,7 @@ def run(report):
         if len(lits) > 1:
             report.add(Ob(f"{oname}/value", FAULT, "gen", 0, f"more than one numeric literal in the definition: {lits}"))
             continue
-        lit_rel = literal_rel_half_ulp(lits[0]) if lits else Fr(0)
+        lit_rel = Fr(PINNED_LIT_REL[name]) if name in PINNED_LIT_REL else Fr(0)
         doc_rel = None
         if row["doc"]:
             rx, rel = row["doc"]
@@ -404,7 +409,7 @@ def run(report):
     else:
         R, kB, NA, Fc, e, hb, h, eps0, mu0, c, Z, sig, b = (SI[n] for n in need)
         z0_lits = facts.get("vacuum_impedance", {}).get("literals") or []
-        z0_lit_rel = literal_rel_half_ulp(z0_lits[0]) if len(z0_lits) == 1 else Fr(0)
+        z0_lit_rel = Fr(PINNED_LIT_REL.get("vacuum_impedance", "0"))
         rounding = 8 * ULP  # allowance for <= 8 correctly rounded binary64 operations/parses on the two sides (8.9e-16)
         idents = [
             ("R=k_B*N_A", R, kB * NA, rounding,
